@@ -329,10 +329,22 @@ def _river(run, prog):
     isd = ("fn", "isinstance", (y, ("global", "builtins.dict")))
     rets = [(ev, ctx) for ev, ctx in walk(e.events) if isinstance(ev, ir.Return)]
     kinds = set()
+    # every way a value is returned: each `return`, each resolution of the selections in its value, and for a
+    # variable assigned in a try statement each arm (body / handler) that assigns it
+    from .algebra import arms
+    tries = {t.tid: t for t, _ in walk(e.events, structural=True) if isinstance(t, ir.Try)}
+    cases = []
     for ev, ctx in rets:
-        v = ev.value
-        handler = [h for t, h in ctx.tries if h != "body"]
-        if v == y and isd in ctx.guards:
+        for facts, val in arms(ev.value):
+            handler = [h for t, h in ctx.tries if h != "body"]
+            guards = tuple(ctx.guards) + tuple(facts)
+            if val[0] == "tryphi" and len(val) >= 5 and val[1] in tries:
+                for alt, arm in zip(val[3], val[4]):
+                    cases.append((ev, alt, guards, [tries[val[1]].handlers[arm - 1]] if arm > 0 else handler))
+            else:
+                cases.append((ev, val, guards, handler))
+    for ev, v, guards, handler in cases:
+        if v == y and isd in guards:
             kinds.add("dict")
         elif v[0] == "new" and v[2] == "dict" and v[3] == (("kv", label, ("fn", "float", (y,))),):
             kinds.add("float")
